@@ -55,6 +55,12 @@ def run(ctx, rep):
     rep.rule("C13-R4", "number spellings: whichever operand shapes a comparison meets (literal, function result, node), equality goes "
              "through the one value-equality helper whose numeric branch compares by value, so `2`, `2.0` and `2e0` behave alike")
     c01.r2(prog, ev, Shared(rep, {"C01-R2": "C13-R5"}, lender="C01", only_keys=["Segment::Descendant"]))
+    # `?expr` / `?(expr)` / redundant parentheses: a parenthesised alternative must not take a prefix of an unparenthesised
+    # sentence (PEG commits to it), nor shadow another alternative as a whole
+    from rules import c06
+    c06.r2(ctx, Shared(rep, {"C06-R2": "C13-R7"}, lender="C06",
+                       only_keys=["choice|filter_selector|", "choice|paren_expr|", "choice|atom_expr|", "choice|logical_expr",
+                                  "dead|filter_selector|", "dead|paren_expr|", "dead|atom_expr|", "dead|logical_expr", "dead-alternatives"]), res)
 
 
 def r1(ctx, rep, res, where):
